@@ -79,14 +79,28 @@ def run_property(prop, tier, seed, rebaseline=False, only_unit=None):
     for name in reg.get("units", []):
         units.append((name, D.load_unit_text(name), {"static": True}))
     if reg.get("gen"):
-        mod = importlib.import_module("vlib." + reg["gen"])
-        units += mod.units(prop, tier, seed)
+        from . import l3
+        try:
+            for g in reg["gen"]:
+                units += l3.units_for(g["corpus"], tier, seed, g.get("mode", "full"), g.get("unit_span", False), prefix=prop.lower())
+        except C.ExtractionError as e:
+            print(f"UNDECIDED property={prop}: {e}")
+            return 2
     if only_unit:
         units = [x for x in units if x[0] == only_unit]
     canaries = ("head",) if tier == "quick" else ("head", "loop_head", "after_loop")
     results = []
     with cf.ThreadPoolExecutor(max_workers=int(os.environ.get("VERIF_JOBS", "14"))) as ex:
-        futs = [ex.submit(D.run_unit, n, t, tier, canaries, reg.get("rlimit"), m) for n, t, m in units]
+        futs = []
+        for n, t, m in units:
+            if t is None:
+                u = D.UnitResult(n)
+                u.status = "undecided"
+                u.reason = m.get("prefail", "no template")
+                u.meta = m
+                results.append(u)
+            else:
+                futs.append(ex.submit(D.run_unit, n, t, tier, canaries, reg.get("rlimit"), m))
         for f in futs:
             results.append(f.result())
     baseline = load_json(BASELINE_PATH, {})
@@ -105,6 +119,7 @@ def run_property(prop, tier, seed, rebaseline=False, only_unit=None):
     fn_rows = []
     trusted = set()
     canary_tot = {"expected": 0, "failed": 0}
+    foreign = 0
     for u in results:
         trusted.update(u.trusted)
         for k, v in u.canaries.items():
@@ -137,10 +152,17 @@ def run_property(prop, tier, seed, rebaseline=False, only_unit=None):
             if gone and u.status != "undecided":
                 undecided.append((u.name, f"baseline obligations no longer generated: {gone}"))
                 continue
-        fails = [f for f in u.failures if mine(f["fn"])]
+        cls = reg.get("classes")
+        xt = reg.get("exclude_text")
+        it = reg.get("include_text")
+        fails = [f for f in u.failures if mine(f["fn"]) and (not cls or re.search(cls, f["message"]))
+                 and not (xt and re.search(xt, f["text"] + " :: " + f["src"]))
+                 and (not it or re.search(it, f["text"] + " :: " + f["src"]))]
+        foreign += len([f for f in u.failures if mine(f["fn"])]) - len(fails)
+        located = {f["fn"] for f in u.failures}
         # a function reported failing without a located diagnostic
         failing_fns = {o["fn"].split("::")[-1] for o in u.obligations if not o["ok"] and mine(o["fn"])}
-        for fn in failing_fns - {f["fn"] for f in fails}:
+        for fn in failing_fns - located:
             fails.append({"fn": fn, "message": "verification failed", "text": "", "src": "", "line": 0, "rlimit": False,
                           "rendered": "", "obligation": f"{u.name}::{fn}::verification failed", "tags": []})
         new = []
@@ -167,10 +189,22 @@ def run_property(prop, tier, seed, rebaseline=False, only_unit=None):
             continue
         seen_known.add(key)
         out_lines.append(f"KNOWN-FINDING: property={prop} {hit.get('what')} [{unit}::{f['fn']}: {f['message']}]")
+    shown = 0
     for u, fails, rp in violations:
-        for f in fails[:6]:
-            out_lines.append(f"  failed obligation: {f['obligation']}")
-        out_lines.append(f"VIOLATION property={prop} replay={rp} no-failing-input-found")
+        for f in fails[:3]:
+            if shown < 12:
+                out_lines.append(f"  failed obligation: {f['obligation']}  (replay {rp})")
+                shown += 1
+    if violations:
+        if len(violations) == 1:
+            agg = violations[0][2]
+        else:
+            agg = os.path.join(VERIF, "replays", f"{prop}_all_{hashlib.sha1('|'.join(v[2] for v in violations).encode()).hexdigest()[:10]}.json")
+            json.dump({"property": prop, "kind": "verus-obligations", "counterexample": None,
+                       "note": "no-failing-input-found: Verus gives no model; each entry is the replay file of one unit whose obligations fail",
+                       "units": [{"unit": v[0].name, "replay": v[2], "failed_obligations": [f["obligation"] for f in v[1]][:8]} for v in violations]},
+                      open(agg, "w"), indent=1)
+        out_lines.append(f"VIOLATION property={prop} replay={agg} no-failing-input-found")
     for name, why in undecided:
         out_lines.append(f"UNDECIDED property={prop} unit={name}: {why}")
     wall = time.time() - t0
@@ -179,6 +213,9 @@ def run_property(prop, tier, seed, rebaseline=False, only_unit=None):
         for o in u.obligations[:4]:
             samples.append({"unit": u.name, "obligation": o["id"], "discharged": o["ok"], "smt_ms": round(o["time_us"] / 1000, 2)})
     gen_units = [u for u in results if not u.meta.get("static")]
+    for u in gen_units[:3]:
+        samples.append({"unit": u.name, "receiver": u.meta.get("declaration"), "mode": u.meta.get("mode"), "composed_file": u.path,
+                        "status": u.status})
     ev = {
         "property_id": prop, "tier": tier, "seed": seed, "level": "proof",
         "coverage": {
@@ -199,6 +236,8 @@ def run_property(prop, tier, seed, rebaseline=False, only_unit=None):
             "bounded_units": reg.get("bounded_units", []),
             "not_covered": reg.get("not_covered", []),
             "explanation": reg.get("explanation", ""),
+            "failures_outside_this_property": foreign,
+            "failure_classes_counted": reg.get("classes") or "all",
         },
         "assumptions": COMMON_ASSUMPTIONS + reg.get("assumptions", []),
         "wall_s": round(wall, 2),
@@ -223,6 +262,8 @@ def run_property(prop, tier, seed, rebaseline=False, only_unit=None):
 
 def replay(prop, path):
     d = json.load(open(path))
+    if "units" in d:
+        d = json.load(open(d["units"][0]["replay"]))
     rc = run_property(prop, "quick", 0, only_unit=d["unit"])
     return rc
 
